@@ -73,7 +73,13 @@ impl Property for C04 {
             6 => Case::Horn(super::c06::C06.decode(t, _tier).pg),
             7 | 8 => Case::Horn(super::c07::C07.decode(t, _tier)),
             9 => Case::Horn(super::c08::C08.decode(t, _tier)),
-            10 | 11 => Case::Rich { rich_goals: (0..4).map(|_| if t.chance(40) { super::c28::RICH_GOALS[t.choose(super::c28::RICH_GOALS.len())].to_string() } else { super::c28::gen_rich_goal(t) }).collect() },
+            10 | 11 => {
+                let mut rich_goals: Vec<String> = (0..4).map(|_| if t.chance(40) { super::c28::RICH_GOALS[t.choose(super::c28::RICH_GOALS.len())].to_string() } else { super::c28::gen_rich_goal(t) }).collect();
+                // round 7 (seed C04z): two const unknowns that only an impl's answer links (`impl<const N> Len<N> for S<N>`
+                // answers `S<?A>: Len<?B>` with ?A = ?B), in a conjunction that pins one of them elsewhere
+                rich_goals.push(const_link_goal(t));
+                Case::Rich { rich_goals }
+            }
             _ => {
                 let cfg = if t.chance(60) { GenCfg::horn_auto() } else { GenCfg::horn() };
                 Case::Horn(super::c01::decode_pg(t, &cfg, &GoalCfg::full(), 4))
@@ -105,6 +111,25 @@ impl Property for C04 {
             Case::Rich { rich_goals } => run_rich(rich_goals),
         }
     }
+}
+
+fn const_link_goal(t: &mut Tape) -> String {
+    let link = match t.choose(3) {
+        0 => "S<N1>: Len<N2>",
+        1 => "S<N2>: Len<N1>",
+        _ => "[A; N1]: Len<N2>",
+    };
+    let pins = ["S<N1>: Foo", "S<N2>: Foo", "A: Len<N1>", "A: Len<N2>", "[A; N1]: Tri", "[B; N2]: Tri", "S<N1>: Holds", "S<N2> = S<4>", "S<N1> = S<2>"];
+    let mut items = vec![link.to_string()];
+    for _ in 0..(1 + t.choose(2)) {
+        let pin = pins[t.choose(pins.len())].to_string();
+        if t.chance(50) {
+            items.push(pin);
+        } else {
+            items.insert(0, pin);
+        }
+    }
+    format!("exists<const N1, const N2> {{ {} }}", items.join(", "))
 }
 
 /// text-level differential over the fixed rich program (lifetime, const, integer / float unknowns, solver-opened
